@@ -21,13 +21,30 @@ RULE = ("3-5 callees with 1-3 borrowed parameters of types array[int,3], struct{
         "int}, qubit, plus an int; bodies of 2-5 ops: element assignment / augmented assignment, "
         "field-array element assignment, X, CX, loops, conditionals, calls to earlier callees "
         "(re-lending own parameters and fields); caller performs 4-8 calls lending variables, s.xs, "
-        "t[k], m[k], m3[i][j] (also with a stateful row index), whole tuples of arrays, qs[k] with distinct initial contents and reports all state. distinct = distinct "
+        "copyable struct fields / tuple elements / int array elements through the borrowing generic "
+        "mem_swap interleaved with whole reads, t[k], m[k], m3[i][j] (also with a stateful row index), whole tuples of arrays, qs[k] with distinct initial contents and reports all state. distinct = distinct "
         "(callee op kinds, lent place kinds) sequences")
 FLOORS = {"programs_emulated": 10, "borrowing_calls": 50}
 
 HEADER = '''from guppylang import guppy
 from guppylang.std.builtins import result, array, owned
 from guppylang.std.quantum import qubit, x, cx, measure, discard
+from guppylang.std.mem import mem_swap
+
+@guppy.struct
+class PC:
+    a: int
+    b: int
+
+@guppy
+def showp(p: PC) -> None:
+    result("pa", p.a)
+    result("pb", p.b)
+
+@guppy
+def showt(t: tuple[int, int]) -> None:
+    result("ta", t[0])
+    result("tb", t[1])
 
 @guppy.struct
 class S:
@@ -182,6 +199,14 @@ class G:
                        "m3[tick(ctr)][0]", "m3[tick(ctr)][1]"], "S": ["s0"],
                  "Q": ["q0", "q1", "qs[0]", "qs[1]"], "T": ["t0", "t1", "t1"]}
         lent = []
+        lines += ["    pc = PC(3, 4)", "    tc = (5, 6)"]
+        # borrowed *copyable* leaves (through the generic, borrowing mem_swap), interleaved with
+        # reads of the whole struct / tuple: every read must see the swaps done so far
+        for _ in range(r.randint(0, 4)):
+            lines.append("    " + r.choice(["mem_swap(pc.a, pc.b)", "mem_swap(tc[0], tc[1])", "showp(pc)", "showt(tc)",
+                                            "mem_swap(a0[0], a0[2])", "mem_swap(a1[1], a1[0])",
+                                            "mem_swap(s0.xs[0], s0.xs[1])", "mem_swap(pc.a, tc[1])"]))
+            lent.append("copyable-leaf-swap" if "mem_swap" in lines[-1] else "whole-read")
         for _ in range(r.randint(4, 8)):
             cal = r.choice(self.callees)
             args = self.pick_args(cal[1], avail)
@@ -192,6 +217,7 @@ class G:
             lent += [("nested-elem-stateful-index" if "tick" in a else "nested-elem" if a.count("[") == 2 else
                       "elem" if "[" in a else "field" if "." in a else
                       "whole-tuple" if a.startswith("t") else "var") for a in args]
+        lines += ["    showp(pc)", "    showt(tc)", '    result("pca", pc.a)', '    result("tc1", tc[1])']
         for v in ("a0", "a1"):
             lines.append(f'    result("{v}", {v})')
         lines += ['    result("s0xs", s0.xs)', '    result("s0k", s0.k)',
@@ -220,7 +246,13 @@ def judge_text(ctx, text, fp, ncalls=0):
     from vf import ctx as C
 
     try:
-        exp, exp_panic = opy.run_source(text, extra_env=PY_ENV)
+        # CPython cannot swap through value arguments: the oracle executes `mem_swap(A, B)` as the
+        # simultaneous assignment `A, B = B, A`, which is what the borrowing swap means
+        import re as _re
+
+        otext = _re.sub(r"^(\s*)mem_swap\((.+?), (.+?)\)\s*$", r"\1\2, \3 = \3, \2", text, flags=_re.M)
+        otext = otext.replace("from guppylang.std.mem import mem_swap\n", "").replace("    tc = (5, 6)", "    tc = [5, 6]")
+        exp, exp_panic = opy.run_source(otext, extra_env=PY_ENV)
     except (opy.OutOfDomain, opy.StepLimit) as e:
         return {"status": "discard", "fp": None, "detail": f"oracle: {e}",
                 "counters": {"discard_out_of_domain": 1}}
